@@ -197,6 +197,10 @@ def proxy_of(src):
     return _state['proxies'][src]
 
 
+class CarryFailed(Exception):
+    pass
+
+
 def carried_proxy_of(src):
     """A result that went through student code twice: call('ident', call(...)).  Containers and objects are handed to the student
     function as they are (not re-created from their repr), so what comes back wraps the first result."""
@@ -206,7 +210,8 @@ def carried_proxy_of(src):
         from pedal.sandbox.result import is_sandbox_result
         p = sb.call('ident', proxy_of(src))
         if not is_sandbox_result(p) or sb.exception is not None:
-            raise RuntimeError('cannot carry proxy for %s: %r' % (src, sb.exception))
+            # handing a result back to student code is itself an operation on the proxy (its value must arrive)
+            raise CarryFailed('call(ident, <result of %s>) failed: %r' % (src, sb.exception))
         _state['proxies'][key] = p
     return _state['proxies'][key]
 
@@ -296,7 +301,10 @@ def judge(case):
     ra = real_of(a_src)
     rb = real_of(b_src) if arity == 2 else None
     real = run_op(fn, (ra, rb)[:arity])
-    pa = carried_proxy_of(a_src) if place == 'carried' else proxy_of(a_src) if place in ('left', 'both') else real_of(a_src)
+    try:
+        pa = carried_proxy_of(a_src) if place == 'carried' else proxy_of(a_src) if place in ('left', 'both') else real_of(a_src)
+    except CarryFailed as e:
+        return Result([V('C16|carried|value-does-not-arrive|%s' % type(ra).__name__, str(e))], True, ['carry-failed'])
     pb = None
     if arity == 2:
         pb = proxy_of(b_src) if place in ('right', 'both') else real_of(b_src)
